@@ -474,6 +474,11 @@ pub fn run(prop: &str, tier: &str, seed: i64) -> Outcome {
             reports.push(x);
         }
     }
+    if which == Which::C06 {
+        let (a, r) = crate::props::c08::deep_histories(tier, "C06");
+        acc.merge(a);
+        reports.push(r);
+    }
     let rule = match which {
         Which::C06 => "every word over the alphabet {search(position_i, depth_j), NEWGAME} up to the stated length on one shared table (DFS with table clones == stateless re-execution): each search's result must be a model-legal move of its root, none only without legal moves; the caller's game unchanged; plus every small position once as a root",
         Which::C18 => "every `info pv` line printed by every search of every word of the same exploration is replayed on the reference model from the searched root",
